@@ -931,6 +931,12 @@ def Selecting.select (s : Selecting) (sh : Shared D L) (n : Nat) : Outcome (Sele
     | .ok com => .ok (s, { sh with com := com.popCursor }, .toState .entering)
     | .panic p => .panic p
     | .outOfFuel => .outOfFuel
+  -- `if offset >= self.candidates(..).len() { return self.spin_bell() }`: nothing listed at this index
+  match Selecting.candidates env s sh with
+  | .panic q => .panic q
+  | .outOfFuel => .outOfFuel
+  | .ok listed =>
+  if offset ≥ listed.length then .ok (s, sh, .spin .bell) else
   match s.sel with
   | .phrase p =>
     match PhraseSel.candidates env p sh.dict sh.syl with
